@@ -221,6 +221,61 @@ def conf_client(item):
     return acc
 
 
+def guess_worker(job):
+    """RFC 4253 7.1: the client announces first_kex_packet_follows and sends a guessed key exchange packet for
+    its preferred method, which the server does not support: the server ignores that one packet (it still
+    counts for the sequence numbers) and the exchange goes on with the negotiated method"""
+    acc = core.Acc()
+    for cipher, mac, strict, right in job:
+        env = {}
+
+        def on_start(sess):
+            sess.chan.write(payload(40, 7))
+        env['session_factory'] = lambda: P.RecSession('srv', on_start=on_start)
+        kexs = ['curve25519-sha256'] if right else ['ecdh-sha2-nistp256', 'curve25519-sha256']
+        w = H.SrvWorld(sopts=dict(kex_algs=['curve25519-sha256'] + (['ecdh-sha2-nistp256'] if right == 'server-has-both' else []),
+                                  encryption_algs=[cipher], mac_algs=[mac] if mac else ()),
+                       rp_kw=dict(kex=kexs, ciphers=[cipher], macs=[mac or 'hmac-sha1'], strict=strict), env=env)
+        w.rp.follows = True
+        if not right:
+            w.rp.guess_payload = R.byte(30) + R.string(b'\x04' + bytes(64))
+        cfg = 'guess/%s/%s/strict=%s/%s' % (cipher, mac, strict, 'right' if right else 'wrong')
+        viol = []
+        try:
+            w.kex().auth()
+            remote, rwin, rpkt = w.open_session(window=2 ** 20)
+            w.rp.send(w.rp.channel_data(remote, payload(33, 8)))
+            w.flush()
+            got = b''.join(R.Reader(p, 5).string() for t, p in w.rp.inbox if t == R.MSG_CHANNEL_DATA)
+            sess = env['server_sessions'][0]
+            if got != payload(40, 7):
+                viol.append(('payload-mismatch', 'refpeer decoded %d bytes of 40' % len(got)))
+            if sess.got() != payload(33, 8):
+                viol.append(('delivery-mismatch', 'server app received %d bytes of 33' % len(sess.got())))
+            if w.server_closed():
+                viol.append(('closed', repr(getattr(w.owner, 'lost_exc', None))))
+            if w.proto.error:
+                viol.append(('refpeer-reject', str(w.proto.error)))
+        except R.RefError as exc:
+            viol.append(('refpeer-reject', str(exc)))
+        except Livelock as exc:
+            viol.append(('livelock', str(exc)))
+        except (asyncssh.Error, OSError) as exc:
+            viol.append(('asyncssh-reject', repr(exc)))
+        finally:
+            w.close()
+        acc.add(core.digest(cfg), transitions=10, sample={'first_kex_packet_follows': cfg} if not right and not strict and mac else None)
+        for k, d in viol:
+            acc.violation('conformance:%s:%s' % (cfg, k), d, {'kind': 'guess', 'item': [cipher, mac, strict, right]})
+    return acc
+
+
+def guess_jobs():
+    suites = [('aes128-ctr', 'hmac-sha2-256'), ('aes128-ctr', 'hmac-sha2-256-etm@openssh.com'), ('aes128-gcm@openssh.com', None),
+              ('chacha20-poly1305@openssh.com', None), ('aes256-cbc', 'hmac-sha1')]
+    return [[(c, m, strict, right)] for c, m in suites for strict in (True, False) for right in (False, True)]
+
+
 ASYM = [('aes128-ctr', 'hmac-sha2-256'), ('aes128-ctr', 'hmac-sha2-256-etm@openssh.com'),
         ('aes128-gcm@openssh.com', None), ('chacha20-poly1305@openssh.com', None),
         ('3des-cbc', 'hmac-sha1'), ('aes256-cbc', 'hmac-sha2-512-etm@openssh.com')]
@@ -551,6 +606,7 @@ def main(tier, seed):
     items = conf_items(tier)
     acc.merge(core.pmap(conf_server, core.rotate(items, seed), chunksize=4))
     acc.merge(core.pmap(conf_client, core.rotate(items, seed), chunksize=4))
+    acc.merge(core.pmap(guess_worker, guess_jobs()))
     n_conf = acc.evaluations
     # segmentation: baseline twice (determinism), then every policy
     base1, bounds = seg_run(('whole',), seed)
@@ -586,7 +642,7 @@ def main(tier, seed):
             'independent refpeer codec, channel-data payload lengths 0..4*blocksize+8, 255..257, '
             '32767/32768 in both directions; refpeer verifies MAC/tag under its own derived keys and '
             'sequence numbers, padding >= 4, block alignment, exact payload sequence, then a key re-exchange '
-            'in mid-session and both directions again; (b) every '
+            'in mid-session and both directions again; first_kex_packet_follows with a wrong and a right guess; (b) every '
             'single split point of both byte streams of a full real<->real session, uniform chunk '
             'sizes 1..67, pairs of split points around packet headers, for 7 packet layouts (CTR+MAC, EtM, GCM, '
             'chacha20-poly1305, CBC, with compression; pairs for the first layout only in quick); observation must equal the '
@@ -610,6 +666,9 @@ def replay(rep):
         acc = conf_server(tuple(r['item']))
     elif kind == 'conf_client':
         acc = conf_client(tuple(r['item']))
+    elif kind == 'guess':
+        i = r['item']
+        acc = guess_worker([(i[0], i[1], i[2], i[3])])
     elif kind == 'interop':
         acc = interop_worker(tuple(r['item']))
     else:
